@@ -734,7 +734,7 @@ Definition wcfg (cap clears fb : bool) : cfg :=
      l_incomplete_fallback := fb |}.
 Definition k_small : consts :=
   {| k_loops := [wcfg true true true; wcfg true true true; wcfg true true true; wcfg true true true; wcfg true true true];
-     k_max_keys := 32; k_inflight_events := 512; k_inflight_bytes := 524288 |}.
+     k_max_keys := 32; k_inflight_events := 512; k_inflight_bytes := 524288; k_ckpt_events := 100; k_ckpt_bytes := 1000 |}.
 Definition wf0 : frame := {| fseq := 0; flen := 8; fb := BCreated |}.
 Definition wf1 : frame := {| fseq := 1; flen := 8; fb := BSelection |}.
 Definition wf2 : frame := {| fseq := 2; flen := 8; fb := BMessage |}.
@@ -903,3 +903,265 @@ Lemma ord_repair_step_rejected :
   ord_step_ok {| os_before := OFile [1; 3] 19; os_seq := 7; os_after := OFile [1; 3; 7] 0; os_msgs := [1; 3; 5; 7] |} = false
   /\ ord_step_ok {| os_before := OFile [1; 3] 19; os_seq := 7; os_after := OFile [1; 3] 19; os_msgs := [1; 3; 5; 7] |} = true.
 Proof. split; vm_compute; reflexivity. Qed.
+
+(* ------------------------------------------------------------------ the checkpoint sidecar (class K2) *)
+(* every line of a real file has at least its '\n' *)
+Definition lens_pos (ls : list line) : bool := forallb (fun x => 1 <=? line_len x) ls.
+Definition log_lens_pos (l : log) : bool := forallb (fun f => 1 <=? flen f) l.
+
+Lemma firstnN_all {B} : forall (l : list B) n, nlen l <= n -> firstnN n l = l.
+Proof.
+  induction l as [|x r IH]; intros n H; cbn [firstnN]; [reflexivity|].
+  unfold nlen in H. cbn [length] in H.
+  destruct (n =? 0) eqn:E; [apply N.eqb_eq in E; lia|].
+  f_equal. apply IH. unfold nlen. lia.
+Qed.
+
+Lemma total_len_pos r : lens_pos r = true -> r <> [] -> 1 <= total_len r.
+Proof.
+  destruct r as [|x r]; [congruence|]. intros H _. unfold lens_pos in H. cbn [forallb] in H.
+  apply andb_true_iff in H. destruct H as [H _]. apply N.leb_le in H.
+  unfold total_len. cbn [map sumN]. lia.
+Qed.
+
+Lemma take_back_all w : forall rl b, lens_pos rl = true -> b + total_len rl <= w -> take_back w b rl = rl.
+Proof.
+  induction rl as [|x r IH]; intros b Hp Hw; cbn [take_back]; [reflexivity|].
+  assert (Hpr : lens_pos r = true).
+  { unfold lens_pos in *. cbn [forallb] in Hp. apply andb_true_iff in Hp. tauto. }
+  assert (Ht : total_len (x :: r) = line_len x + total_len r) by (unfold total_len; cbn [map sumN]; reflexivity).
+  destruct r as [|y r'].
+  - rewrite Ht in Hw. unfold total_len in Hw. cbn [map sumN] in Hw.
+    destruct (b + line_len x <=? w) eqn:E; [reflexivity|]. apply N.leb_gt in E. lia.
+  - assert (H1 : 1 <= total_len (y :: r')) by (apply total_len_pos; [exact Hpr | discriminate]).
+    destruct (b + line_len x + 1 <=? w) eqn:E; [|apply N.leb_gt in E; lia].
+    f_equal. apply IH; [exact Hpr | lia].
+Qed.
+
+Lemma total_len_rev ls : total_len (rev ls) = total_len ls.
+Proof.
+  unfold total_len. induction ls as [|x r IH]; [reflexivity|].
+  cbn [rev map sumN]. rewrite map_app, sumN_app, IH. cbn [map sumN]. lia.
+Qed.
+
+Lemma lens_pos_rev ls : lens_pos ls = true -> lens_pos (rev ls) = true.
+Proof. unfold lens_pos. rewrite !forallb_forall. intros H x Hx. apply H. apply in_rev. exact Hx. Qed.
+
+(* a complete scan of an all-good file returns all of it, latest first *)
+Lemma scan_back_complete me mb fs fs_rev :
+  log_lens_pos fs = true -> scan_back me mb (map LGood fs) = STail fs_rev true -> fs_rev = rev fs.
+Proof.
+  intros Hp H. destruct fs as [|f0 fs0].
+  - cbn in H. inversion H; reflexivity.
+  - remember (f0 :: fs0) as fs eqn:Efs. unfold scan_back in H.
+    destruct (map LGood fs) as [|x ls'] eqn:Em; [subst fs; discriminate|]. rewrite <- Em in H. clear x ls' Em.
+    set (ls := map LGood fs) in *.
+    destruct (all_good (firstnN me (take_back (N.min (total_len ls) mb) 0 (rev ls)))) as [fr|] eqn:Eg; [|discriminate].
+    inversion H as [[Hfr Hc]]. subst fr. apply andb_true_iff in Hc. destruct Hc as [Hb He].
+    apply N.leb_le in Hb, He.
+    assert (Hlp : lens_pos ls = true).
+    { unfold ls, lens_pos, log_lens_pos in *. rewrite forallb_forall in *. intros x Hx.
+      apply in_map_iff in Hx. destruct Hx as [f [<- Hf]]. exact (Hp f Hf). }
+    rewrite take_back_all in Eg; [| apply lens_pos_rev; exact Hlp | rewrite total_len_rev; lia].
+    rewrite firstnN_all in Eg by (unfold nlen in *; rewrite rev_length; exact He).
+    unfold ls in Eg. rewrite <- map_rev, all_good_of_map in Eg. inversion Eg; reflexivity.
+Qed.
+
+(* --- the choice of the latest checkpoint does not depend on the order of the frames --- *)
+Definition ck_elig (mt : N) (f : frame) : bool := is_checkpoint f && (ck_to_seq f <=? mt).
+Definition ck_step (mt : N) (b : option frame) (f : frame) : option frame :=
+  if ck_elig mt f
+  then match b with None => Some f | Some c => if ck_better f c then Some f else Some c end
+  else b.
+
+Lemma latest_ckpt_fold mt : forall fs b, latest_ckpt mt b fs = fold_left (ck_step mt) fs b.
+Proof.
+  induction fs as [|f r IH]; intros b; [reflexivity|].
+  cbn [latest_ckpt fold_left]. unfold ck_step at 2. unfold ck_elig.
+  destruct (is_checkpoint f && (ck_to_seq f <=? mt)); apply IH.
+Qed.
+
+Lemma better_total x y : ck_better x y = false -> ck_better y x = false -> fseq x = fseq y.
+Proof.
+  unfold ck_better. intros H1 H2.
+  apply orb_false_iff in H1. destruct H1 as [A1 B1]. apply orb_false_iff in H2. destruct H2 as [A2 B2].
+  apply N.ltb_ge in A1, A2. assert (E : ck_to_seq x = ck_to_seq y) by lia.
+  rewrite E, N.eqb_refl in B1. rewrite E, N.eqb_refl in B2. cbn [andb] in *.
+  apply N.ltb_ge in B1, B2. lia.
+Qed.
+
+Lemma better_asym x y : ck_better x y = true -> ck_better y x = false.
+Proof.
+  unfold ck_better. intros H. apply orb_true_iff in H. apply orb_false_iff.
+  destruct H as [H|H].
+  - apply N.ltb_lt in H. split; [apply N.ltb_ge; lia|].
+    destruct (ck_to_seq y =? ck_to_seq x) eqn:E; [apply N.eqb_eq in E; lia | reflexivity].
+  - apply andb_true_iff in H. destruct H as [E L]. apply N.eqb_eq in E. apply N.ltb_lt in L.
+    split; [apply N.ltb_ge; lia|]. rewrite E, N.eqb_refl. cbn [andb]. apply N.ltb_ge. lia.
+Qed.
+
+Lemma better_trans x y z : ck_better x y = true -> ck_better y z = true -> ck_better x z = true.
+Proof.
+  unfold ck_better. intros H1 H2. apply orb_true_iff in H1. apply orb_true_iff in H2. apply orb_true_iff.
+  destruct H1 as [H1|H1], H2 as [H2|H2].
+  - apply N.ltb_lt in H1, H2. left. apply N.ltb_lt. lia.
+  - apply N.ltb_lt in H1. apply andb_true_iff in H2. destruct H2 as [E _]. apply N.eqb_eq in E.
+    left. apply N.ltb_lt. lia.
+  - apply N.ltb_lt in H2. apply andb_true_iff in H1. destruct H1 as [E _]. apply N.eqb_eq in E.
+    left. apply N.ltb_lt. lia.
+  - apply andb_true_iff in H1. destruct H1 as [E1 L1]. apply andb_true_iff in H2. destruct H2 as [E2 L2].
+    apply N.eqb_eq in E1, E2. apply N.ltb_lt in L1, L2. right.
+    apply andb_true_iff. split; [apply N.eqb_eq; lia | apply N.ltb_lt; lia].
+Qed.
+
+Lemma ck_step_comm mt b x y : (fseq x = fseq y -> x = y) ->
+  ck_step mt (ck_step mt b x) y = ck_step mt (ck_step mt b y) x.
+Proof.
+  intros Hinj. unfold ck_step.
+  destruct (ck_elig mt x) eqn:Ex, (ck_elig mt y) eqn:Ey; try rewrite Ex; try rewrite Ey; try reflexivity.
+  assert (Hxy : (if ck_better y x then Some y else Some x) = (if ck_better x y then Some x else Some y)).
+  { destruct (ck_better y x) eqn:A.
+    - rewrite (better_asym _ _ A). reflexivity.
+    - destruct (ck_better x y) eqn:B; [reflexivity|]. f_equal. apply Hinj. exact (better_total _ _ B A). }
+  destruct b as [c|]; [|exact Hxy].
+  destruct (ck_better x c) eqn:Bx, (ck_better y c) eqn:By; try rewrite Bx; try rewrite By.
+  - exact Hxy.
+  - destruct (ck_better y x) eqn:A; [|reflexivity].
+    (* y > x > c but y is not better than c: impossible *)
+    pose proof (better_trans y x c A Bx) as H. congruence.
+  - destruct (ck_better x y) eqn:A; [|reflexivity].
+    pose proof (better_trans x y c A By) as H. congruence.
+  - reflexivity.
+Qed.
+
+Lemma ck_fold_comm mt : forall fs b x, (forall y, In y fs -> fseq x = fseq y -> x = y) ->
+  fold_left (ck_step mt) fs (ck_step mt b x) = ck_step mt (fold_left (ck_step mt) fs b) x.
+Proof.
+  induction fs as [|y r IH]; intros b x H; [reflexivity|].
+  cbn [fold_left]. rewrite (ck_step_comm mt b x y (H y (or_introl eq_refl))).
+  apply IH. intros z Hz. apply H. right; exact Hz.
+Qed.
+
+Definition seq_inj (fs : list frame) : Prop := forall a b, In a fs -> In b fs -> fseq a = fseq b -> a = b.
+
+Lemma ck_fold_rev mt : forall fs b, seq_inj fs ->
+  fold_left (ck_step mt) (rev fs) b = fold_left (ck_step mt) fs b.
+Proof.
+  induction fs as [|x r IH]; intros b Hi; [reflexivity|].
+  cbn [rev]. rewrite fold_left_app. cbn [fold_left].
+  rewrite IH by (intros a c Ha Hc; apply Hi; right; assumption).
+  symmetry. apply ck_fold_comm. intros y Hy. apply Hi; [left; reflexivity | right; exact Hy].
+Qed.
+
+Lemma contiguous_from_ge : forall l b a, contiguous_from b l = true -> In a l -> b <= fseq a.
+Proof.
+  induction l as [|f r IH]; intros b a H Ha; [destruct Ha|].
+  cbn [contiguous_from] in H. apply andb_true_iff in H. destruct H as [Hf Hr]. apply N.eqb_eq in Hf.
+  destruct Ha as [<-|Ha]; [lia|]. specialize (IH _ _ Hr Ha). lia.
+Qed.
+
+Lemma valid_seq_inj l : valid_log l = true -> seq_inj l.
+Proof.
+  unfold valid_log. generalize 0. induction l as [|f r IH]; intros b H a c Ha Hc E; [destruct Ha|].
+  cbn [contiguous_from] in H. apply andb_true_iff in H. destruct H as [Hf Hr]. apply N.eqb_eq in Hf.
+  destruct Ha as [<-|Ha], Hc as [<-|Hc].
+  - reflexivity.
+  - pose proof (contiguous_from_ge _ _ _ Hr Hc). lia.
+  - pose proof (contiguous_from_ge _ _ _ Hr Ha). lia.
+  - exact (IH _ Hr a c Ha Hc E).
+Qed.
+
+Lemma latest_ckpt_filter mt : forall fs b, latest_ckpt mt b (filter is_checkpoint fs) = latest_ckpt mt b fs.
+Proof.
+  induction fs as [|f r IH]; intros b; [reflexivity|].
+  cbn [filter latest_ckpt]. destruct (is_checkpoint f) eqn:E.
+  - cbn [latest_ckpt]. rewrite E. cbn [andb]. destruct (ck_to_seq f <=? mt); apply IH.
+  - cbn [andb]. apply IH.
+Qed.
+
+(* what a complete scan of the exact checkpoint projection yields *)
+Lemma ckpt_projection_scan me mb mt l fs_rev :
+  valid_log l = true -> log_lens_pos l = true ->
+  scan_back me mb (comp_projection l) = STail fs_rev true ->
+  latest_ckpt mt None fs_rev = latest_ckpt mt None l.
+Proof.
+  intros Hv Hp H. unfold comp_projection in H.
+  assert (Hp' : log_lens_pos (filter is_checkpoint l) = true).
+  { unfold log_lens_pos in *. rewrite forallb_forall in *. intros f Hf. apply Hp. apply filter_In in Hf. tauto. }
+  rewrite (scan_back_complete _ _ _ _ Hp' H).
+  rewrite !latest_ckpt_fold, ck_fold_rev.
+  - rewrite <- !latest_ckpt_fold. apply latest_ckpt_filter.
+  - intros a c Ha Hc. apply (valid_seq_inj l Hv); [apply filter_In in Ha | apply filter_In in Hc]; tauto.
+Qed.
+
+(* ¬K2: the checkpoint sidecar, when present, is the projection of the truth stream; when absent,
+   a full sidecar without an unparsable line is the truth stream (so what is built from it is the
+   projection) *)
+Definition CompFaithful (l : log) (comp full : sfile) : Prop :=
+  match comp with
+  | Some ls => ls = comp_projection l
+  | None => match full with
+            | None => True
+            | Some fl => forall fs, all_good fl = Some fs -> fs = l
+            end
+  end.
+
+Lemma ckpt_file_fast me mb l :
+  valid_log l = true -> log_lens_pos l = true ->
+  match (match scan_back me mb (comp_projection l) with
+         | STail fs_rev cpl => if cpl then CkSome (latest_ckpt U64MAX None fs_rev) else CkErr
+         | _ => CkErr
+         end) with
+  | CkSome (Some f) => Some (fseq f)
+  | _ => option_map fseq (latest_ckpt_truth U64MAX l)
+  end = option_map fseq (latest_ckpt_truth U64MAX l).
+Proof.
+  intros Hv Hp. destruct (scan_back me mb (comp_projection l)) as [| |fs_rev cpl] eqn:Es; try reflexivity.
+  destruct cpl; [|reflexivity].
+  rewrite (ckpt_projection_scan me mb U64MAX l fs_rev Hv Hp Es).
+  unfold latest_ckpt_truth. destruct (latest_ckpt U64MAX None l); reflexivity.
+Qed.
+
+Theorem status_ckpt_transparent me mb comp full l :
+  valid_log l = true -> log_lens_pos l = true -> FullFaithful l full -> CompFaithful l comp full ->
+  status_ckpt_fast me mb comp full l = option_map fseq (latest_ckpt_truth U64MAX l).
+Proof.
+  intros Hv Hp Hff Hcf. unfold status_ckpt_fast.
+  rewrite (replay_faithful l full Hv Hff). fold (latest_ckpt_truth U64MAX l).
+  unfold latest_ckpt_cache.
+  destruct comp as [ls|]; cbn [CompFaithful] in Hcf.
+  - subst ls. cbv iota beta. exact (ckpt_file_fast me mb l Hv Hp).
+  - destruct full as [fl|]; [|reflexivity].
+    unfold header_project. destruct (all_good fl) as [fs|] eqn:Eg; cbn [option_map]; [|reflexivity].
+    rewrite (Hcf fs eq_refl).
+    destruct (comp_projection l) as [|x r] eqn:Ec; [reflexivity|]. rewrite <- Ec.
+    cbv iota beta. exact (ckpt_file_fast me mb l Hv Hp).
+Qed.
+
+(* K2 is not vacuous: a sidecar re-created by the append of a later checkpoint with a smaller to_seq *)
+Definition wck (s t : N) : frame := {| fseq := s; flen := 8; fb := BCheckpoint true t |}.
+Definition wlog3 : log := [wf0; {| fseq := 1; flen := 8; fb := BMessage |}; {| fseq := 2; flen := 8; fb := BMessage |}; wck 3 2; wck 4 1].
+Lemma K2_changes_answer :
+  valid_log wlog3 = true /\ log_lens_pos wlog3 = true /\ FullFaithful wlog3 (Some (project_full wlog3))
+  /\ ~ CompFaithful wlog3 (Some [LGood (wck 4 1)]) (Some (project_full wlog3))
+  /\ status_ckpt_fast 100 1000 (Some [LGood (wck 4 1)]) (Some (project_full wlog3)) wlog3 = Some 4
+  /\ option_map fseq (latest_ckpt_truth U64MAX wlog3) = Some 3.
+Proof.
+  split; [reflexivity|]. split; [reflexivity|]. split; [apply project_full_faithful|]. split.
+  - cbn [CompFaithful]. vm_compute. discriminate.
+  - split; vm_compute; reflexivity.
+Qed.
+
+Lemma status_ckpt_example :
+  CompFaithful wlog3 (Some (comp_projection wlog3)) (Some (project_full wlog3))
+  /\ CompFaithful wlog3 None (Some (project_full wlog3))
+  /\ status_ckpt_fast 100 1000 (Some (comp_projection wlog3)) (Some (project_full wlog3)) wlog3 = Some 3
+  /\ status_ckpt_fast 100 1000 None (Some (project_full wlog3)) wlog3 = Some 3.
+Proof.
+  split; [reflexivity|]. split.
+  - cbn [CompFaithful]. intros fs H. unfold project_full in H. rewrite all_good_of_map in H. inversion H; reflexivity.
+  - split; vm_compute; reflexivity.
+Qed.
+
+Lemma latest_ckpt_rev mt fs b : seq_inj fs -> latest_ckpt mt b (rev fs) = latest_ckpt mt b fs.
+Proof. intros H. rewrite !latest_ckpt_fold. apply ck_fold_rev. exact H. Qed.
